@@ -861,8 +861,42 @@ def rule_enclosing_ignored(chk, prog):
     (r.bad if bad else r.ok)("firstBlocker", fn.loc(blocks["j"]), bad or "")
 
 
+def rule_fixed_route_cleared(chk, prog):
+    from ..rules.guards import path_condition, atoms
+    r = chk.rule("FIXED-ROUTE-CLEARED", "while a connector has a fixed route ConnRef::updateEndPoint returns before computing visibility for its end "
+                 "vertices; ConnRef::clearFixedRoute therefore queues both end points again (setEndpoints / setSourceEndpoint + setDestEndpoint "
+                 "/ updateEndPoint for both), under no condition other than the end vertices existing -- otherwise the search finds no path "
+                 "and the connector is drawn straight through the obstacles from then on", floor=2)
+    up = prog.fn("Avoid::ConnRef::updateEndPoint")
+    ret = [n for n in up.nodes() if n.get("k") == "ReturnStmt" and any("m_has_fixed_route" in a for a in atoms(path_condition(up, n, inline=False)))]
+    r.count()
+    if not ret:
+        r.ok("updateEndPoint shortcut", up.where(), "updateEndPoint no longer returns early for fixed routes (clause vacuous)")
+        return
+    r.ok("updateEndPoint shortcut", up.loc(ret[0]), "returns early under m_has_fixed_route")
+    fn = prog.fn("Avoid::ConnRef::clearFixedRoute")
+    g = CFG(fn)
+    both = [c for c in calls(fn) if c.get("cname") == "Avoid::ConnRef::setEndpoints"]
+    srcs = [c for c in calls(fn) if c.get("cname") in ("Avoid::ConnRef::setSourceEndpoint",)]
+    dsts = [c for c in calls(fn) if c.get("cname") in ("Avoid::ConnRef::setDestEndpoint",)]
+    r.count()
+    bad = None
+    groups = [both] if both else ([srcs, dsts] if srcs and dsts else [])
+    if not groups:
+        bad = "the end points are not queued again: their vertices keep having no visibility edges"
+    else:
+        for grp in groups:
+            c = grp[0]
+            ats = atoms(path_condition(fn, c, inline=False))
+            extra = [a for a in ats if a.strip("()! ") not in ("m_src_vert", "m_dst_vert", "true") and "m_src_vert" not in a and "m_dst_vert" not in a]
+            if extra:
+                bad = bad or "the end points are queued again only under %s" % sorted(extra)
+    (r.bad if bad else r.ok)("clearFixedRoute re-queues the end points", fn.where(), bad or "")
+
+
 def run(chk):
     prog = chk.load()
+    chk.guard(rule_fixed_route_cleared, chk, prog)
     chk.guard(rule_callers, chk, prog)
     chk.guard(rule_vis_guard, chk, prog)
     chk.guard(rule_blocking_scan, chk, prog)
